@@ -223,7 +223,7 @@ PROPS = {
     ),
     'C04': dict(
         units=['value_cmp', 'value_arith', 'builtins'],
-        not_covered=['double comparisons in Verus (result kind only; Kani float twins decide the order laws)',
+        not_covered=['the laws of the double order (IEEE comparison is uninterpreted: only that doubles are compared lhs to rhs is pinned)',
                      'element-wise list equality and map equality (std::iter::zip / HashMap iteration have no Verus support: those two match arms are dropped, see rewrites)',
                      'laws of the string/bytes/timestamp/duration orders are std\'s and chrono\'s Ord (assumed)'],
         assumptions=['sort: the comparator is ord; that slice::sort_by with a total order returns an ordered permutation is std\'s contract (not under contract here)'],
@@ -245,7 +245,7 @@ PROPS = {
             r'as Rem::rem::.*(int_result|requires@std)': 'arith_int_rem', r'as Rem::rem::.*(uint_result|no-division)': 'arith_uint_rem',
             r'as Neg::neg::.*(int_exact|no-overflow)': 'arith_int_neg', r'as Neg::neg::.*unsigned': 'arith_uint_neg',
         },
-        not_covered=['IEEE-754 value of the double arms in Verus (result kind only; the Kani float twins decide the value)'],
+        not_covered=['what the IEEE-754 operations compute (uninterpreted: the operator, operand order and int -> double widening of the double arms ARE pinned)'],
         assumptions=['`%` on doubles is an error in the code; the statement allows either reading, the error reading is specified'],
     ),
 }
